@@ -20,3 +20,4 @@ def run(col, configs, tier):
         guarded(col, F.rule_entry_validation, facts)
         guarded(col, X.rule_byte_predicates, facts)
         guarded(col, X.rule_control_radices, facts)
+        guarded(col, X.rule_punctuation_pairs, facts)
